@@ -214,3 +214,321 @@ def check_validators_strict(ctx, rule="VAL-strict"):
               "snapshot then fall through and the length reaches the output in its source units" if got else "a valid length can no longer be built"))
     n += 1
   return n
+
+
+def check_style_chains(ctx, rule="FIN-chain"):
+  """Chained referential styling (<style style="a b">) flattened by StylingElement.ParsingContext.merge_chained_styles, interpreted
+  on small style graphs: own values win over referenced ones, later references win over earlier ones, references of references are
+  followed, a style reached along two paths (a diamond) is merged on both, and a loop of references ends."""
+  ix = ctx.ix
+  cls = ix.cls("ttconv.imsc.elements:StylingElement.ParsingContext")
+  f = cls.methods.get("merge_chained_styles")
+  if f is None:
+    raise_anchor(ix, "ttconv.imsc.elements:StylingElement.ParsingContext.merge_chained_styles")
+  ctx.unit(f.module)
+
+  def S(refs, **styles):
+    return {"__record__": "StyleElement", "style_refs": list(refs), "styles": dict(styles)}
+  scenarios = [
+    ("later references win over earlier ones", {"s": S(["a", "b"]), "a": S([], color="A", size="SA"), "b": S([], color="B")}, "s", {"s": {"color": "B", "size": "SA"}}),
+    ("own values win over referenced ones", {"s": S(["a"], color="S"), "a": S([], color="A", size="SA")}, "s", {"s": {"color": "S", "size": "SA"}}),
+    ("references of references are followed", {"s": S(["a"]), "a": S(["c"], color="A"), "c": S([], color="C", font="FC")}, "s", {"s": {"color": "A", "font": "FC"}, "a": {"color": "A", "font": "FC"}}),
+    ("three references, the last one wins", {"s": S(["a", "b", "c"]), "a": S([], color="A"), "b": S([], color="B", size="SB"), "c": S([], color="C")}, "s", {"s": {"color": "C", "size": "SB"}}),
+    ("a style reached along two paths is merged on both", {"top": S(["left", "right"]), "left": S(["base"]), "right": S(["base"], size="SR"), "base": S([], color="X")}, "top",
+     {"top": {"color": "X", "size": "SR"}, "left": {"color": "X"}, "right": {"color": "X", "size": "SR"}}),
+    ("an unknown reference is skipped", {"s": S(["nope", "a"]), "a": S([], color="A")}, "s", {"s": {"color": "A"}}),
+    ("a loop of references ends", {"s1": S(["s2"], color="1"), "s2": S(["s3"], size="2"), "s3": S(["s1"], font="3")}, "s1", {"s1": {"color": "1", "size": "2", "font": "3"}}),
+  ]
+  n = 0
+  for what, graph, start, want in scenarios:
+    key = f"{f.qualname}|{what}"
+    for k_, v_ in graph.items():
+      v_["id"] = k_
+    this = {"__record__": "ParsingContext", "__class__": cls, "style_elements": graph}
+    try:
+      MiniEval(ix, opaque_calls={"LOGGER": None}).call(f, [this, graph[start]])
+    except Raised:
+      ctx.bad(rule, key, ctx.where(f.module, f.node), f"interpreted on the style graph {_show(graph)}, merge_chained_styles raises (or does not end)")
+      n += 1
+      continue
+    except NotConst as ex:
+      ctx.undecide(rule, f"{f.qualname} ({what}): not in the interpreted subset ({ex})")
+      continue
+    got = {k: graph[k]["styles"] for k in want}
+    ctx.check(got == want, rule, key, ctx.where(f.module, f.node), "interpreted on a sample style graph",
+              f"interpreted on the style graph {_show_in(scenarios, what)}, merging `{start}` leaves {got} instead of {want}: {what} (TTML2 8.4.4.2 / 10.4.4.2)")
+    n += 1
+  return n
+
+
+def _show(graph):
+  return {k: (v["style_refs"], v["styles"]) for k, v in graph.items()}
+
+
+def _show_in(scenarios, what):
+  for w, graph, _s, _want in scenarios:
+    if w == what:
+      return {k: "..." for k in graph}
+  return {}
+
+
+RUBY_CHILDREN = {
+  "Ruby": ([["Rb", "Rt"], ["Rb", "Rp", "Rt", "Rp"], ["Rbc", "Rtc"], ["Rbc", "Rtc", "Rtc"]],
+           [[], ["Rb"], ["Rt", "Rb"], ["Rb", "Rt", "Rt"], ["Rbc"], ["Rb", "Rtc"], ["Rbc", "Rt"], ["Rb", "Rp", "Rt"], ["Rb", "Rt", "Rp"], ["Rbc", "Rtc", "Rtc", "Rtc"], ["Rtc", "Rbc"], ["Span", "Rt"]]),
+  "Rtc": ([["Rt"], ["Rt", "Rt"], ["Rt", "Rt", "Rt"], ["Rp", "Rt", "Rp"], ["Rp", "Rt", "Rt", "Rp"]],
+          [["Rp", "Rt"], ["Rt", "Rp"], ["Rp", "Rp"], ["Rb"], ["Rp", "Rb", "Rp"], ["Rt", "Rp", "Rt"], ["Rp"], ["Rp", "Rt", "Rp", "Rp"], ["Span"]]),
+}
+
+
+def check_ruby_children(ctx, rule="FIN-rubykids"):
+  """The child sequences Ruby.push_children / Rtc.push_children accept, interpreted on sample sequences: exactly the TTML2 ruby
+  content models (ruby: rb rt | rb rp rt rp | rbc rtc | rbc rtc rtc; rtc: rt+ | rp rt+ rp)."""
+  ix = ctx.ix
+  n = 0
+  for cname, (accept, reject) in RUBY_CHILDREN.items():
+    cls = ix.cls(f"ttconv.model:{cname}")
+    f = cls.methods.get("push_children")
+    if f is None:
+      raise_anchor(ix, f"ttconv.model:{cname}.push_children")
+    ctx.unit(f.module)
+    for seq, ok_ in [(s_, True) for s_ in accept] + [(s_, False) for s_ in reject]:
+      kids = [Node(k_, f"{k_.lower()}{i_}", ()) for i_, k_ in enumerate(seq)]
+      parent_ = Node(cname, cname.lower(), [])
+      key = f"{f.qualname}|[{', '.join(seq)}] is {'accepted' if ok_ else 'rejected'}"
+      try:
+        MiniEval(ix).call(f, [parent_, kids])
+        got = [c_.kind for c_ in parent_.children] == seq
+        if not got and not parent_.children:
+          got = None     # returned without raising and without attaching
+      except Raised:
+        got = False
+      except NotConst as ex:
+        ctx.undecide(rule, f"{f.qualname} on [{', '.join(seq)}]: not in the interpreted subset ({ex})")
+        continue
+      n += 1
+      if ok_:
+        ctx.check(got is True, rule, key, ctx.where(f.module, f.node), "interpreted: attached in order",
+                  f"interpreted, {cname}.push_children([{', '.join(seq)}]) {'raises' if got is False else 'does not attach the children in order'}: a child sequence of the TTML2 ruby content model is refused "
+                  "(the reader logs the error and the ruby text is lost)")
+      else:
+        ctx.check(got is False, rule, key, ctx.where(f.module, f.node), "interpreted: raises",
+                  f"interpreted, {cname}.push_children([{', '.join(seq)}]) is accepted: a child sequence outside the TTML2 ruby content model enters the model")
+  return n
+
+
+def _tree(spec, parent=None):
+  """('Div', 'd1', [children...]) -> Node with parent links"""
+  kind, name, kids = spec
+  n = Node(kind, name, [])
+  n.parent = parent
+  for k in kids:
+    n.children.append(_tree(k, n))
+  return n
+
+
+def check_paragraph_merge(ctx, rule="FIN-merge"):
+  """ParagraphsMergingISDFilter.process interpreted on sample snapshots: afterwards every region holds at most one paragraph, and
+  that paragraph carries the spans of all the region's paragraphs - at any nesting depth of divs - in document order, with exactly
+  one line break between the content of consecutive paragraphs; a region with a single paragraph keeps its content."""
+  ix = ctx.ix
+  f = ix.func("ttconv.filters.isd.merge_paragraphs:ParagraphsMergingISDFilter.process")
+  ctx.unit(f.module)
+  S = lambda nm: ("Span", nm, [])
+  samples = {
+    "divs nested at several depths": [("Body", "b", [("Div", "d1", [("P", "p1", [S("s1"), S("s2")]), ("Div", "d2", [("P", "p2", [S("s3")])]), ("P", "p3", [S("s4")])]), ("Div", "d3", [("P", "p4", [S("s5")])])])],
+    "one div holding one div with two paragraphs": [("Body", "b", [("Div", "d1", [("Div", "d2", [("P", "p1", [S("s1")]), ("P", "p2", [S("s2")])])])])],
+    "a single paragraph": [("Body", "b", [("Div", "d1", [("P", "p1", [S("s1"), S("s2")])])])],
+    "a nested div between two paragraphs": [("Body", "b", [("Div", "d1", [("P", "p1", [S("s1")]), ("Div", "d2", [("P", "p2", [S("s2")])]), ("P", "p3", [S("s3")])])])],
+    "two regions": [("Body", "b1", [("Div", "d1", [("P", "p1", [S("s1")]), ("P", "p2", [S("s2")])])]), ("Body", "b2", [("Div", "d2", [("P", "p3", [S("s3")])]), ("Div", "d3", [("P", "p4", [S("s4")])])])],
+    "an empty body": [("Body", "b", [])],
+  }
+  n = 0
+  for what, bodies in samples.items():
+    regions = []
+    want = []
+    for i, b in enumerate(bodies):
+      r = Node("Region", f"r{i + 1}", [])
+      body = _tree(b, r)
+      r.children.append(body)
+      regions.append(r)
+      ps = [x for x in body.walk() if x.kind == "P"]
+      seq = []
+      for j, p in enumerate(ps):
+        seq += [c.name for c in p.children]
+        if j < len(ps) - 1:
+          seq.append("BR")
+      want.append(seq)
+    isd = Node("ISD", "isd", [], regions=regions)
+    key = f"{f.qualname}|{what}"
+    this = {"__record__": f.cls.name, "__class__": f.cls}
+    try:
+      MiniEval(ix, node_methods={"iter_regions": lambda n_: list(n_.fields["regions"])}, opaque_calls={"LOGGER": None}).call(f, [this, isd])
+    except Raised:
+      ctx.bad(rule, key, ctx.where(f.module, f.node), f"interpreted on a snapshot with {what}, the paragraph merger raises")
+      n += 1
+      continue
+    except NotConst as ex:
+      ctx.undecide(rule, f"{f.qualname} ({what}): not in the interpreted subset ({ex})")
+      continue
+    got, counts = [], []
+    for r in regions:
+      ps = [x for x in r.walk() if x.kind == "P"]
+      counts.append(len(ps))
+      seq = []
+      for x in r.walk():
+        if x.kind == "Span" and x.parent is not None and x.parent.kind == "P":
+          seq.append(x.name)
+        elif x.kind == "Br":
+          seq.append("BR")
+      got.append(seq)
+    ok = got == want and all(c <= 1 or not w for c, w in zip(counts, want)) and all(c <= 1 for c in counts)
+    ctx.check(ok, rule, key, ctx.where(f.module, f.node), "interpreted: one paragraph per region, content in document order, one break between paragraphs",
+              f"interpreted on a snapshot with {what}, the merger leaves {counts} paragraph(s) per region holding {got} instead of one paragraph per region holding {want}: "
+              "paragraphs that are shown at the same time stay separate (the cue writers emit one cue per paragraph: overlapping cues), or text is dropped or reordered")
+    n += 1
+  return n
+
+
+def check_lwsp_block(ctx, rule="FIN-lwsp"):
+  """The white-space step of ISD._process_element - the statements that build the run of text of a paragraph, process linear
+  white space and prune what became empty - interpreted on sample paragraphs (xml:space=default): runs of white space collapse
+  to one space, white space at the start of the paragraph / after a line break and at the end / before a line break goes, and a
+  text node left empty - or empty in the source - disappears together with every span it leaves without children."""
+  ix = ctx.ix
+  f = ix.func("ttconv.isd:ISD._process_element")
+  ctx.unit(f.module)
+  from ..core import own_nodes
+  guards = [n for n in own_nodes(f.node) if isinstance(n, ast.If) and any(isinstance(s_, ast.Expr) and isinstance(s_.value, ast.Call) and unparse(s_.value.func).endswith("_construct_text_list") for s_ in n.body)]
+  if len(guards) != 1:
+    ctx.undecide(rule, f"{f.qualname}: expected one guarded white-space step, found {len(guards)}")
+    return 0
+  g = guards[0]
+  # the name that holds the snapshot element in that block: the first argument of _construct_text_list
+  call = next(c for s_ in g.body for c in ast.walk(s_) if isinstance(c, ast.Call) and unparse(c.func).endswith("_construct_text_list"))
+  if not (call.args and isinstance(call.args[0], ast.Name)):
+    ctx.undecide(rule, f"{f.qualname}: the element handed to _construct_text_list is not a local")
+    return 0
+  elem_name = call.args[0].id
+  ws = MiniEval(ix)._enum_table(ix.cls("ttconv.model:WhiteSpaceHandling"), f)
+  T = lambda nm, tx: ("Text", nm, tx)
+
+  def build(spec, parent=None):
+    kind, name, rest = spec
+    n = Node(kind, name, [], space=ws["DEFAULT"])
+    n.parent = parent
+    if kind == "Text":
+      n.fields["text"] = rest
+    else:
+      for k in rest:
+        n.children.append(build(k, n))
+    return n
+
+  def show(n):
+    if n.kind == "Text":
+      return repr(n.fields.get("text"))
+    if n.kind == "Br":
+      return "br"
+    return f"{n.kind.lower()}[{', '.join(show(c) for c in n.children)}]"
+  samples = [
+    ("a trailing span of white space", ("P", "p", [("Span", "s1", [T("t1", "hello")]), ("Span", "s2", [T("t2", " ")])]), "p[span['hello']]"),
+    ("trailing white space after a span", ("P", "p", [("Span", "s1", [T("t1", "bonjour")]), T("t2", " ")]), "p[span['bonjour']]"),
+    ("runs of white space", ("P", "p", [T("t1", "  a \t b\n ")]), "p['a b']"),
+    ("a text node that is empty in the source", ("P", "p", [("Span", "s1", [T("t1", "")]), T("t2", "x")]), "p['x']"),
+    ("white space around a line break", ("P", "p", [T("t1", "a "), ("Br", "br", []), T("t2", " b")]), "p['a', br, 'b']"),
+    ("a single space between spans", ("P", "p", [("Span", "s1", [T("t1", "a")]), T("t2", " "), ("Span", "s2", [T("t3", "b")])]), "p[span['a'], ' ', span['b']]"),
+    ("nested spans emptied from the inside", ("P", "p", [T("t0", "x"), ("Span", "s1", [("Span", "s2", [T("t1", "  ")])])]), "p['x']"),
+    ("nothing to do", ("P", "p", [("Span", "s1", [T("t1", "a b")])]), "p[span['a b']]"),
+  ]
+  methods = {
+    "get_text": lambda n_: n_.fields.get("text"),
+    "set_text": lambda n_, t_: n_.fields.__setitem__("text", t_),
+    "get_space": lambda n_: n_.fields.get("space"),
+    "__len__": lambda n_: len(n_.children),
+  }
+  n = 0
+  for what, spec, want in samples:
+    root = build(spec)
+    key = f"{f.qualname}|white-space step: {what}"
+    me = MiniEval(ix, node_methods=methods)
+    try:
+      me.block(g.body, {elem_name: root, "isd_element": root, "element": root}, f, 0)
+    except Raised:
+      ctx.bad(rule, key, ctx.where(f.module, g), f"interpreted on {show(build(spec))}, the white-space step raises")
+      n += 1
+      continue
+    except NotConst as ex:
+      ctx.undecide(rule, f"{f.qualname} white-space step ({what}): not in the interpreted subset ({ex})")
+      continue
+    except Exception as ex:   # pylint: disable=broad-except
+      if type(ex).__name__ == "_Return":
+        pass
+      else:
+        raise
+    got = show(root)
+    ctx.check(got == want, rule, key, ctx.where(f.module, g), f"interpreted: {got}",
+              f"interpreted on {show(build(spec))} (xml:space=default), the white-space step leaves {got} instead of {want}")
+    n += 1
+  return n
+
+
+TOKEN_PROBES = [
+  ("a &amp; b", [("S", "a & b")]),
+  ("&lt;i&gt;", [("S", "<i>")]),
+  ("&#39;x&#x3c;&#9834;", [("S", "'x<♪")]),
+  ("&nbsp;&lrm;&rlm;", [("S", "\xa0‎‏")]),
+  ("AT&T", [("S", "AT&T")]),
+  ("a & b", [("S", "a & b")]),
+  ("R&D;", [("S", "R&D;")]),
+  ("5 &gt; 3 &amp;&amp; 2 &lt; 4", [("S", "5 > 3 && 2 < 4")]),
+  ("<b>x</b>", [("B", "b", [], None), ("S", "x"), ("E", "b")]),
+  ("<c.red.big>y</c>", [("B", "c", ["red", "big"], None), ("S", "y"), ("E", "c")]),
+  ("<v Bob>hi</v>", [("B", "v", [], "Bob"), ("S", "hi"), ("E", "v")]),
+  ("<v.loud R&amp;D>x</v>", [("B", "v", ["loud"], "R&D"), ("S", "x"), ("E", "v")]),
+  ("a<00:01:02.000>b", [("S", "a"), ("T", "00:01:02.000"), ("S", "b")]),
+  ("<i>a<b>b</b></i>", [("B", "i", [], None), ("S", "a"), ("B", "b", [], None), ("S", "b"), ("E", "b"), ("E", "i")]),
+  ("x &#39;", [("S", "x '")]),
+]
+
+
+def check_cue_tokens(ctx, rule="FIN-tokens"):
+  """The WebVTT cue text tokenizer interpreted on probe texts: character references (named, decimal, hexadecimal, &nbsp; &lrm;
+  &rlm;) are decoded, an ampersand that starts no reference stands for itself, tags give start / end / timestamp tokens with their
+  classes and annotation (WebVTT 6.4, cue text tokenizer)."""
+  ix = ctx.ix
+  f = ix.func("ttconv.vtt.tokenizer:CueTextTokenizer")
+  ctx.unit(f.module)
+  n = 0
+  for text, want in TOKEN_PROBES:
+    key = f"{f.qualname}|tokens of {text!a}"
+    me = MiniEval(ix, opaque_calls={"LOGGER": None})
+    me.init_modules = {"ttconv.vtt.tokenizer"}
+    try:
+      toks = me.call(f, [text])
+    except Raised:
+      ctx.bad(rule, key, ctx.where(f.module, f.node), f"interpreted on {text!a}, the tokenizer raises")
+      n += 1
+      continue
+    except NotConst as ex:
+      ctx.undecide(rule, f"{f.qualname} on {text!a}: not in the interpreted subset ({ex})")
+      continue
+    got = []
+    for t in toks or []:
+      k = t.get("__record__") if isinstance(t, dict) else None
+      if k == "StringToken":
+        if got and got[-1][0] == "S":
+          got[-1] = ("S", got[-1][1] + t.get("value", ""))
+        elif t.get("value", "") != "":
+          got.append(("S", t.get("value")))
+      elif k == "StartTagToken":
+        got.append(("B", t.get("tag"), list(t.get("classes") or []), t.get("annotation") or None))
+      elif k == "EndTagToken":
+        got.append(("E", t.get("tag")))
+      elif k == "TimestampTagToken":
+        got.append(("T", t.get("timestamp")))
+      else:
+        got.append(("?", repr(t)[:40]))
+    ctx.check(got == want, rule, key, ctx.where(f.module, f.node), "interpreted: the tokens of the WebVTT cue text tokenizer",
+              f"interpreted on {text!a}, the tokenizer yields {ascii(got)} instead of {ascii(want)} (S text, B start tag + classes + annotation, E end tag, T timestamp): "
+              "text the writer escaped, or a tag it wrote, is read back differently")
+    n += 1
+  return n
